@@ -31,10 +31,10 @@ pub fn run_prog<G: Cv>(env: &Env<G>, prog: &Program, seed: u64) -> Out {
         let mut rng = crate::alphabet::chacha(seed, "c06");
         let r = prover.prove_and_return_transcript(&mut rng, &env.bp);
         let order = take_ctx(ctx).closure_order;
-        (r.map(|(p, t)| (p.to_bytes().unwrap(), t)), comms, order)
+        (r.map(|(p, t)| (p.to_bytes().unwrap(), p, t)), comms, order)
     });
-    let (bytes, mut ptr, comms, order) = match pres {
-        Ok((Ok((b, t)), c, o)) => (b, t, c, o),
+    let (bytes, proof, mut ptr, comms, order) = match pres {
+        Ok((Ok((b, p, t)), c, o)) => (b, p, t, c, o),
         // no honest proof: completeness is C01's business; there is no run to monitor
         Ok((Err(_), _, _)) | Err(_) => {
             out.precondition_failed = true;
@@ -48,7 +48,6 @@ pub fn run_prog<G: Cv>(env: &Env<G>, prog: &Program, seed: u64) -> Out {
             return out;
         }
     };
-    let proof = R1CSProof::<G>::from_bytes(&bytes).unwrap();
     // ---- verifier under recording
     let (vres, vev) = record_guarded(|| {
         let t = Transcript::new(program::LABEL);
